@@ -5,7 +5,11 @@ import random as _real_random
 
 
 class Enumerator:
+    MAX_DEPTH = 8  # draws of one call that are enumerated; a call that draws more often (a redraw loop) gets ordinary pseudo-random answers from there on
+
     def __init__(self, part=0, parts=1):
+        self.beyond_depth = 0
+        self._fallback = _real_random.Random(12)
         self.script = []  # [index, size, first_index_for_reset]
         self.pos = 0
         self.part, self.parts = part, parts
@@ -19,6 +23,9 @@ class Enumerator:
         self.draws += 1
         if len(self.ranges_seen) < 4000:
             self.ranges_seen.add(label)
+        if self.pos == len(self.script) and self.pos >= self.MAX_DEPTH:
+            self.beyond_depth += 1
+            return self._fallback.randrange(n)
         if self.pos == len(self.script):
             start = self.part if self.pos == 0 else 0
             step = self.parts if self.pos == 0 else 1
@@ -70,6 +77,32 @@ class Enumerator:
 
     def current(self):
         return [e[0] for e in self.script[: self.pos]]
+
+
+class Sticky(Enumerator):
+    """A random source that is stuck: every draw of a call is answered with the same index k (modulo the size of
+    the range asked for).  After CAP draws in one call it answers pseudo-randomly, so that a redraw loop ends."""
+    CAP = 5000
+
+    def __init__(self, k):
+        Enumerator.__init__(self)
+        self.k = k
+        self.in_call = 0
+        self.capped = 0
+
+    def begin(self):
+        self.in_call = 0
+
+    def _choose(self, n, label):
+        if n <= 0:
+            raise ValueError("empty range for randrange() %s" % (label,))
+        self.draws += 1
+        self.in_call += 1
+        if self.in_call > self.CAP:
+            if self.in_call == self.CAP + 1:
+                self.capped += 1
+            return self._fallback.randrange(n)
+        return self.k % n
 
 
 class _Exhausted(Exception):
